@@ -359,6 +359,8 @@ def random_case(rng, topo, subst_kind=None, site_kind=None, tree_kind=None, ncol
     mode = int(rng.integers(3))
     case["use_ambiguities"] = mode == 0
     case["use_tip_states"] = mode == 1
+    if rng.random() < 0.2:
+        case["rescale"] = True
     if dt["kind"] != "codon" and ncols >= 3 and rng.random() < 0.25:
         # a site pattern over a subset of the columns (what partitioned analyses use), written as the `indices` key
         opts = ["::2", "1::2", "::3", "1::3,2::3", "%d:" % int(rng.integers(1, ncols)), ":%d" % int(rng.integers(1, ncols)), "-1,0", "0,::2", "%d,%d" % (int(rng.integers(ncols)), int(rng.integers(ncols)))]
